@@ -379,6 +379,10 @@ def run_many(cases, opts_of, rundir, profile="debug", on_result=None, timeout=12
                 r["error"] = "oracle exception: %r" % ex
         if not keep:
             shutil.rmtree(d, ignore_errors=True)
+        if first_problem(r) is None:
+            # long runs carry hundreds of MB of expected / actual lines: nothing more is read from a clean result
+            for k in ("act", "exp", "hooks", "hooks_by_cmd"):
+                r[k] = []
         return (label, text, r)
 
     with ThreadPoolExecutor(NPROC) as ex:
